@@ -1003,6 +1003,13 @@ def m_rand_intn(ex, args, guard, pos):
     return v, guard
 
 
+def m_ctx_with_cancel(ex, args, guard, pos):
+    """context.WithCancel/WithTimeout/WithDeadline: an opaque derived context and a no-op cancel function"""
+    ex.ctx_counter = getattr(ex, "ctx_counter", 0) + 1
+    ctx = IfaceV([(True, "verif.ctx", Opaque(stable_id("ctx.derived.%d" % ex.ctx_counter)))])
+    return TupleV([ctx, FuncV([(True, "verif.noop", ())])]), guard
+
+
 def m_ctx_background(ex, args, guard, pos):
     return IfaceV([(True, "verif.ctx", Opaque(stable_id("ctx.background")))]), guard
 
@@ -1173,6 +1180,10 @@ def install(ex):
     M["math/rand.Intn"] = m_rand_intn
     M["runtime.Gosched"] = m_runtime_noop
     M["runtime.KeepAlive"] = m_runtime_noop
+    M["context.WithCancel"] = m_ctx_with_cancel
+    M["context.WithTimeout"] = m_ctx_with_cancel
+    M["context.WithDeadline"] = m_ctx_with_cancel
+    ex.intercepts["verif.noop"] = lambda ex_, args, guard, pos: (None, guard)
     M["context.Background"] = m_ctx_background
     M["context.TODO"] = m_ctx_background
 
